@@ -1,4 +1,5 @@
 """C13 - Categories behave as values (depccg/cat.py: ==, hash, ^, == with strings, clear_features)."""
+import env
 import itertools, os, subprocess
 import numpy
 import gen
@@ -192,7 +193,7 @@ def compile_tables(ctx, files):
     for name, body in files.items():
         fn = os.path.join(ctx.work, name + '.v')
         open(fn, 'w').write(body)
-        procs.append((name, subprocess.Popen(['timeout', '600', 'coqc', '-R', COQ, 'Depccg', '-Q', ctx.work, 'WC13', fn],
+        procs.append((name, subprocess.Popen(['timeout', '600', env.COQC, '-R', COQ, 'Depccg', '-Q', ctx.work, 'WC13', fn],
                                              stdout=subprocess.PIPE, stderr=subprocess.PIPE, text=True)))
     ok = True
     for name, p in procs:
